@@ -125,15 +125,22 @@ def imported_revisions_layer(ctx, same_package_class):
     revisions (two directories, same namespace name).  The verdict must be the one yardl gives when the same definitions are
     part of the package itself (same_package_class: label -> class, computed by the real yardl in the main layer)."""
     app = "P: !protocol\n  sequence:\n    a: int32\n    r: Lib.R\n"
-    jobs = [(name, old[:-len(P0)], new[:-len(P0)], doc) for name, old, new, doc in EDITS
+    jobs = [(name, old[:-len(P0)], new[:-len(P0)], doc, app, app, None) for name, old, new, doc in EDITS
             if old.endswith(P0) and new.endswith(P0) and "P:" not in old[:-len(P0)] and "P:" not in new[:-len(P0)]]
+    # an imported generic instantiated with a local type that is declared AFTER its user: the comparison walks the definitions in
+    # dependency order, which here runs through the type argument of a reference into another namespace
+    box = "Box<T>: !record\n  fields:\n    v: T\n    n: int32\n"
+    appg = "Holder: !record\n  fields:\n    b: Lib.Box<Item>\n\nItem: !record\n  fields:\n    x: {X}\n\nP: !protocol\n  sequence:\n    a: int32\n    r: Holder\n"
+    jobs.append(("imported-generic-local-argument-identical", box, box, "ok", appg.replace("{X}", "int32"), appg.replace("{X}", "int32"), "ok"))
+    jobs.append(("imported-generic-local-argument-widened", box, box, "warn", appg.replace("{X}", "int32"), appg.replace("{X}", "int64"), "warn"))
+    jobs.append(("imported-generic-local-argument-vector", box, box, "err", appg.replace("{X}", "int32"), appg.replace("{X}", "int32*"), "err"))
 
     def one(ij):
-        i, (name, lo, ln, doc) = ij
+        i, (name, lo, ln, doc, app_old, app_new, _want) = ij
         root = os.path.join(ctx.scratch, "imp%d" % i)
         for d, ns, extra, text in (("libold", "Lib", "", lo), ("libnew", "Lib", "", ln),
-                                   ("old", "App", "imports:\n  - ../libold\n", app),
-                                   ("new", "App", "imports:\n  - ../libnew\nversions:\n  v0: ../old\n", app)):
+                                   ("old", "App", "imports:\n  - ../libold\n", app_old),
+                                   ("new", "App", "imports:\n  - ../libnew\nversions:\n  v0: ../old\n", app_new)):
             os.makedirs(os.path.join(root, d), exist_ok=True)
             open(os.path.join(root, d, "_package.yml"), "w").write("namespace: %s\n%s" % (ns, extra))
             open(os.path.join(root, d, "m.yml"), "w").write(text)
@@ -148,11 +155,11 @@ def imported_revisions_layer(ctx, same_package_class):
                 "lib_old": lo, "lib_new": ln}
     with ThreadPoolExecutor(max_workers=12) as ex:
         res = list(ex.map(one, enumerate(jobs)))
-    for (name, lo, ln, doc), r in zip(jobs, res):
+    for (name, lo, ln, doc, app_old, app_new, want_fixed), r in zip(jobs, res):
         if r is None:
             ctx.count("imported_revisions", "old version invalid on its own")
             continue
-        want = same_package_class.get("edit:" + name)
+        want = want_fixed or same_package_class.get("edit:" + name)
         ctx.case(("imported", name), sample={"edit": name, "imported": r["class"], "same_package": want, "documented": doc})
         ctx.count("imported_revisions", "agree" if want == r["class"] else "differ")
         if want is not None and r["class"] != want:
@@ -160,7 +167,7 @@ def imported_revisions_layer(ctx, same_package_class):
                        "edit '%s' applied to a definition of an imported namespace (old and new version import different revisions of "
                        "`Lib`): verdict %s, but %s when the same definitions are part of the package itself (documented: %s)"
                        % (name, r["class"], want, doc),
-                       {"edit": name, "lib_old": lo, "lib_new": ln, "app": app, "imported_verdict": r["class"], "same_package_verdict": want,
+                       {"edit": name, "lib_old": lo, "lib_new": ln, "app_old": app_old, "app_new": app_new, "imported_verdict": r["class"], "same_package_verdict": want,
                         "documented": doc, "output": r["output"][-900:]})
 
 
